@@ -24,6 +24,8 @@ import LA.Drive.Xtr
 import LA.Drive.ReadData
 import LA.Drive.Flt
 import LA.Drive.Tree
+import LA.Drive.Codec
+import LA.Drive.CodecOracle
 open LA
 
 def engines : List (String × Engine) := [
@@ -53,7 +55,11 @@ def engines : List (String × Engine) := [
   ("pathclean", LA.Xtr.enginePath),
   ("rdd", LA.RD.engine),
   ("flt", LA.Flt.engine),
-  ("tree", LA.Tree.engine)
+  ("tree", LA.Tree.engine),
+  ("codec", LA.Codec.engine),
+  ("codecp", LA.Codec.engine),
+  ("codec.c10", LA.Codec.oracle10),
+  ("codec.c02", LA.Codec.oracle02)
 ]
 
 partial def loop (e : Engine) (h : IO.FS.Stream) (out : IO.FS.Stream) (s : e.σ) : IO Unit := do
